@@ -326,7 +326,8 @@ def unconfigured(ctx):
     declared parts; configuring and clearing again gives the same."""
     for nparts in (1, 2):
         w = make_wsdl(nparts, None)
-        for how in ("never", "none-at-construction", "set-then-none", "set-then-empty"):
+        for how in ("never", "none-at-construction", "set-then-none", "set-then-empty", "added-to-then-none",
+                    "added-to-twice-then-none"):
             meta = {"stream": "unconfigured", "declared_parts": nparts, "how": how}
             ctx.case(common.canon(meta), True)
             try:
@@ -334,6 +335,16 @@ def unconfigured(ctx):
                     c = wsdlkit.client(w, nosend=True)
                 elif how == "none-at-construction":
                     c = wsdlkit.client(w, nosend=True, soapheaders=None)
+                elif how.startswith("added-to"):
+                    # entries added to whatever the option holds (`+=`), later cleared with None
+                    c = wsdlkit.client(w, nosend=True)
+                    c.options.soapheaders += (mk_element(1),)
+                    if "twice" in how:
+                        c.options.soapheaders += (mk_element(2),)
+                    sent = header_names(wsdlkit.envelope_bytes(c.service.f("x")))
+                    if len(sent) != (2 if "twice" in how else 1):
+                        ctx.fail("entries added to the soapheaders option are not sent", meta, sent, "the added entries")
+                    c.options.soapheaders = None
                 else:
                     c = wsdlkit.client(w, nosend=True, soapheaders=("v",))
                     c.service.f("x")
